@@ -37,6 +37,7 @@ P = {
         "(above 2^39 that spacing alone exceeds 0.0001). The time-period monitor brackets the code's own clock readings with the harness clock."
     ),
     "props_modules": ["Spine.Props.C19", "Spine.Props.C19Layouts"],
+    "generated_props": ["Spine.Props.C19Layouts"],
     "generated": ["timelayouts"],
     "generated_files": ["TimeLayouts.lean"],
     "lemma_modules": ["Spine.C19", "Spine.RndSound", "Spine.C19Exec"],
